@@ -21,8 +21,13 @@ pub fn native_sweep(seed: u64, thorough: bool, shard: usize, n: usize) -> Stats 
                         if g % n != shard {
                             continue;
                         }
-                        let img = untrusted::boundary_image(l, vi, ri, li, variant, &mut rng);
+                        let mut img = untrusted::boundary_image(l, vi, ri, li, variant, &mut rng);
                         untrusted::gate(&img, &mut st);
+                        if VERSIONS[vi] == 3 && l >= 36 {
+                            // the same hostile header/footer, but certified by a correct checksum
+                            untrusted::fix_checksum(&mut img);
+                            untrusted::gate(&img, &mut st);
+                        }
                     }
                 }
             }
@@ -40,6 +45,9 @@ pub fn native_sweep(seed: u64, thorough: bool, shard: usize, n: usize) -> Stats 
             // plausible root address so that more images open
             let end = l - 4;
             img[end - 8..end].copy_from_slice(&((l as u64).wrapping_sub(21)).to_le_bytes());
+        }
+        if i % 7 == 0 {
+            untrusted::fix_checksum(&mut img);
         }
         untrusted::gate(&img, &mut st);
     }
@@ -59,6 +67,12 @@ pub fn native_sweep(seed: u64, thorough: bool, shard: usize, n: usize) -> Stats 
                 if *v != orig {
                     img[pos] = *v;
                     untrusted::gate(&img, &mut st);
+                    if pos + 4 < img.len() && (*v == orig ^ 1 || pos + 24 >= img.len()) {
+                        // a corrupted body/footer whose checksum was recomputed by the attacker
+                        let mut fixed = img.clone();
+                        untrusted::fix_checksum(&mut fixed);
+                        untrusted::gate(&fixed, &mut st);
+                    }
                 }
             }
             img[pos] = orig;
@@ -231,7 +245,7 @@ pub fn run(ctx: &Ctx) -> i32 {
         ev,
         Spec {
             level: "exploration",
-            rule: "one evaluation = one byte string pushed through the gate Fst::new / Map::new / Set::new, then on anything that opens len, is_empty, fst_type, size, as_bytes, to_vec, as_inner and verify(), all under catch_unwind; run in a release build AND in an optimised build with overflow checks and debug assertions (footer arithmetic differs); images: every length 0..64 x 7 version fields x 14x14 footer root/len boundary values x 3 fillings (~2.7*10^5), 10^6 (thorough 2*10^7) random strings of length 0..512, every truncation / 5 single-byte mutations per offset / extensions of 50 (200) valid FSTs; Miri (undefined-behaviour interpreter) runs 16 shards of the same gate on boundary images plus bounded traversals (stream, get, range, search, set operation) of single-byte-mutated FSTs where a panic is allowed but undefined behaviour is not, and (thorough) a miniature of every public operation on valid inputs; the syntactic clause 'no unsafe code' is covered by an auxiliary NON-RUNTIME gate (the library must compile with -F unsafe_code); non-trivial = every image; distinct_nontrivial is counted conservatively (half of the native images + all Miri operations)",
+            rule: "one evaluation = one byte string pushed through the gate Fst::new / Map::new / Set::new, then on anything that opens len, is_empty, fst_type, size, as_bytes, to_vec, as_inner and verify(), all under catch_unwind; run in a release build AND in an optimised build with overflow checks and debug assertions (footer arithmetic differs); images: every length 0..64 x 7 version fields x 14x14 footer root/len boundary values x 3 fillings (~2.7*10^5; version-3 images additionally with a CORRECT recomputed checksum, so that verify() gets past its comparison), the same bytes also arriving through Fst::map_data / Map::map_data on a container opened from good bytes, 10^6 (thorough 2*10^7) random strings of length 0..512, every truncation / 5 single-byte mutations per offset / extensions of 50 (200) valid FSTs; Miri (undefined-behaviour interpreter) runs 16 shards of the same gate on boundary images plus bounded traversals (stream, get, range, search, set operation) of single-byte-mutated FSTs where a panic is allowed but undefined behaviour is not, and (thorough) a miniature of every public operation on valid inputs; the syntactic clause 'no unsafe code' is covered by an auxiliary NON-RUNTIME gate (the library must compile with -F unsafe_code); non-trivial = every image; distinct_nontrivial is counted conservatively (half of the native images + all Miri operations)",
             assumptions: vec!["root(), node() and traversals may panic on malformed data: the statement only makes open, metadata accessors and verify total".into(), "Miri cannot see through FFI; the library has none".into(), "a Miri or build-tool failure is INCONCLUSIVE, never a violation".into()],
             floors,
             exhaustive: Some(false),
